@@ -18,7 +18,8 @@
   suffices; the Go code overflows its stack), `resolve_refines_evalT` on the flat fragment and, under the
   key-safety hypothesis, for nested keys (both directions: `resolve_iff_evalT_nested_partial`); the
   real `norm` (re-lexing): irrelevant on inputs without
-  partial delimiters, divergent on a balanced table with one.
+  partial delimiters and, per run, whenever it is stable on the texts the run looks up
+  (`stableRun`); divergent on a balanced table with a partial delimiter.
 -/
 import YtkProofs.Resolver
 import YtkProofs.ResolverSem
@@ -28,6 +29,7 @@ import YtkProofs.ResolverEval
 import YtkProofs.ResolverNested
 import YtkProofs.ResolverRelex
 import YtkProofs.ResolverNestedConv
+import YtkProofs.ResolverStable
 
 namespace Ytk.C11
 open Ytk.Resolver
@@ -589,6 +591,90 @@ theorem evalT2_terminates_nested_partial {tt : TTable2} (hT : tt.WF) (t : Tmpl2)
   obtain ⟨r, ⟨m, hm, hne⟩, hr⟩ := evalT2_terminates hT ht hk
   exact ⟨r, hne, ⟨m, evalT2_eventually hm hne⟩, hr.fuel⟩
 
+/-- `resolve_eq_evalT_nested`: the two directions as ONE EQUATION on the common domain.  Over a
+    well-formed table, on a key-safe run, neither side needs a termination hypothesis (the evaluator
+    is total, the resolver ends on balanced tables): from some fuel `k` on — independently for the
+    two sides — the resolver on the rendered template and the reference evaluator on the AST return
+    the same thing, a text or a circular reference, never `outOfFuel`.
+    `_partial`: key-safety cannot be dropped (`resolve_iff_evalT_nested_unconditional_refuted`);
+    full statement without it:
+      ∀ tt t st, tt.WF → t.WF → ∃ k, ∀ m m', k ≤ m → k ≤ m' →
+        resolve id m (toTable2 tt) (render2 t) st = evalT2 tt m' t st ∧ evalT2 tt m' t st ≠ .outOfFuel -/
+theorem resolve_eq_evalT_nested_partial {tt : TTable2} (hT : tt.WF) (t : Tmpl2) (st : List Toks)
+    (ht : t.WF) (hk : ∃ m0, ∀ m, m0 ≤ m → keySafe tt m t st = true) :
+    ∃ k, ∀ m m', k ≤ m → k ≤ m' →
+      resolve id m (toTable2 tt) (render2 t) st = evalT2 tt m' t st ∧
+        evalT2 tt m' t st ≠ .outOfFuel := by
+  obtain ⟨r, hne, ⟨k₁, h₁⟩, ⟨k₂, h₂⟩⟩ := evalT2_terminates_nested_partial hT t st ht hk
+  refine ⟨max k₁ k₂, fun m m' hm hm' => ?_⟩
+  rw [h₂ m (by omega), h₁ m' (by omega)]
+  exact ⟨rfl, hne⟩
+
+/-- the same with the hypothesis in its decidable one-run form (the hypotheses of
+    `resolve_refines_evalT_nested_partial`): ONE run of the evaluator that ends and is key-safe
+    fixes the result of both sides for every larger fuel -/
+theorem resolve_eq_evalT_nested_run_partial {tt : TTable2} (hT : tt.WF) (n : Nat) (t : Tmpl2)
+    (st : List Toks) (ht : t.WF) (h : evalT2 tt n t st ≠ .outOfFuel) (hk : keySafe tt n t st = true) :
+    ∃ k, ∀ m m', k ≤ m → n ≤ m' →
+      resolve id m (toTable2 tt) (render2 t) st = evalT2 tt m' t st ∧
+        evalT2 tt m' t st = evalT2 tt n t st := by
+  obtain ⟨k, hk'⟩ := resolve_refines_evalT_nested_partial hT n t st ht h hk
+  refine ⟨k, fun m m' hm hm' => ?_⟩
+  have e := evalT2_fuel_mono tt hm' t st h
+  exact ⟨by rw [hk' m hm, e], e⟩
+
+/-- the three ways the outcome kinds could differ are excluded: under the hypotheses of
+    `resolve_eq_evalT_nested_partial` a text of one side is the text of the other, a circular
+    reference of one side is the circular reference (same placeholder text) of the other — at ANY
+    two fuels at which the two sides have ended -/
+theorem resolve_evalT_nested_same_outcome_partial {tt : TTable2} (hT : tt.WF) (t : Tmpl2)
+    (st : List Toks) (ht : t.WF) (hk : ∃ m0, ∀ m, m0 ≤ m → keySafe tt m t st = true) (n m : Nat)
+    (hn : resolve id n (toTable2 tt) (render2 t) st ≠ .outOfFuel)
+    (hm : evalT2 tt m t st ≠ .outOfFuel) :
+    resolve id n (toTable2 tt) (render2 t) st = evalT2 tt m t st := by
+  obtain ⟨m', hm', _⟩ := (resolves_iff_evalT2 hT t st ht hk _).mp ⟨n, rfl, hn⟩
+  rw [← hm']
+  exact evalT2_unique (by rw [hm']; exact hn) hm
+
+/-- `resolve_eq_evalT_nested_partial` on concrete nested templates over the table b = `1`,
+    a1 = `x`, k = `b`:  `${a${b}}` → `x` (the key text `a1` is assembled from literal text and a
+    substituted value), `${${k}:d}` → `1` (the key is itself a placeholder; known, the default is
+    not used), `${${q}:d}` → `d` (the inner placeholder stays verbatim, the key text `${q}` is
+    unknown, the default is used).  Hypotheses hold; both sides give the stated result for EVERY
+    fuel ≥ 10. -/
+theorem nonvacuous_resolve_eq_evalT_nested :
+    let tt : TTable2 := [([.ch 'b'], .lit [.ch '1'] .done), ([.ch 'a', .ch '1'], .lit [.ch 'x'] .done),
+      ([.ch 'k'], .lit [.ch 'b'] .done)]
+    let t₁ : Tmpl2 := .ph (.lit tA (.ph (.lit [.ch 'b'] .done) .done)) .done
+    let t₂ : Tmpl2 := .phd (.ph (.lit [.ch 'k'] .done) .done) (.lit [.ch 'd'] .done) .done
+    let t₃ : Tmpl2 := .phd (.ph (.lit [.ch 'q'] .done) .done) (.lit [.ch 'd'] .done) .done
+    tt.WF ∧ t₁.WF ∧ t₂.WF ∧ t₃.WF ∧
+    render2 t₁ = [.pre, .ch 'a', .pre, .ch 'b', .suf, .suf] ∧
+    render2 t₂ = [.pre, .pre, .ch 'k', .suf, .sep, .ch 'd', .suf] ∧
+    render2 t₃ = [.pre, .pre, .ch 'q', .suf, .sep, .ch 'd', .suf] ∧
+    (∃ m0, ∀ m, m0 ≤ m → keySafe tt m t₁ [] = true) ∧
+    (∃ m0, ∀ m, m0 ≤ m → keySafe tt m t₂ [] = true) ∧
+    (∃ m0, ∀ m, m0 ≤ m → keySafe tt m t₃ [] = true) ∧
+    (∀ m m', 10 ≤ m → 10 ≤ m' →
+      resolve id m (toTable2 tt) (render2 t₁) [] = .ok [.ch 'x'] ∧ evalT2 tt m' t₁ [] = .ok [.ch 'x']) ∧
+    (∀ m m', 10 ≤ m → 10 ≤ m' →
+      resolve id m (toTable2 tt) (render2 t₂) [] = .ok [.ch '1'] ∧ evalT2 tt m' t₂ [] = .ok [.ch '1']) ∧
+    (∀ m m', 10 ≤ m → 10 ≤ m' →
+      resolve id m (toTable2 tt) (render2 t₃) [] = .ok [.ch 'd'] ∧ evalT2 tt m' t₃ [] = .ok [.ch 'd']) := by
+  intro tt t₁ t₂ t₃
+  have fuels : ∀ (t : Tmpl2) (out : Toks), resolve id 10 (toTable2 tt) (render2 t) [] = .ok out →
+      evalT2 tt 10 t [] = .ok out → ∀ m m', 10 ≤ m → 10 ≤ m' →
+        resolve id m (toTable2 tt) (render2 t) [] = .ok out ∧ evalT2 tt m' t [] = .ok out := by
+    intro t out h₁ h₂ m m' hm hm'
+    exact ⟨by rw [resolve_fuel_mono id _ hm _ _ (by rw [h₁]; simp), h₁],
+      by rw [evalT2_fuel_mono tt hm' t [] (by rw [h₂]; simp), h₂]⟩
+  refine ⟨by decide, by decide, by decide, by decide, by decide, by decide, by decide,
+    KeySafeEv.of_run (n := 10) (by decide) (by decide),
+    KeySafeEv.of_run (n := 10) (by decide) (by decide),
+    KeySafeEv.of_run (n := 10) (by decide) (by decide),
+    fuels t₁ _ (by decide) (by decide), fuels t₂ _ (by decide) (by decide),
+    fuels t₃ _ (by decide) (by decide)⟩
+
 /-- the unconditional equivalence is refuted: `${${a}}` with a = `k:z` (the resolver ends with `z`,
     the evaluator with the verbatim placeholder) -/
 theorem resolve_iff_evalT_nested_unconditional_refuted :
@@ -794,6 +880,135 @@ theorem nonvacuous_relex_clean :
       .ok [.ch 'x', .pre, .ch 'c', .suf, .ch '{', .ch '-', .pre, .ch 'u', .suf, .ch '|', .pre, .ch 'a'] := by
   decide
 
+/-! ### the real `norm`, PER RUN (YtkProofs/ResolverStable.lean)
+
+  `resolve_terminates_balanced_relex_partial` asks that NO character token of the table values and
+  of the input starts a delimiter — a static condition on the whole alphabet, far more than the run
+  needs.  The hypothesis is weakened to a decidable condition on the run itself:
+
+      `stableRun norm n tbl s seen`  —  every resolved placeholder text `ph'` that the run
+      `resolve norm n tbl s seen` LOOKS UP is a fixed point of `norm` (`relex d ph' = ph'`)
+
+  (a Boolean with the recursion of `resolve`).  Values that are never substituted, lone delimiter
+  characters that never glue, and even glued delimiters that end up in the OUTPUT but never in a
+  looked-up text (`nonvacuous_relex_stable`: o = `$`, a = `${o}{x}`, input `${a}` → the characters
+  `${x}`) are all fine.  The static condition implies it (`stableRun_of_clean`), the divergent run
+  of D31 violates it (`relex_counterexample_not_stable`), so it sits exactly between the two.  It is
+  sufficient, not necessary: `relex_unstable_but_ends`.
+
+  Full statement (no stability hypothesis) — FALSE: `resolve_terminates_balanced_relex_refuted`. -/
+
+/-- a stable run of the model under `norm` IS the run of the `norm = id` model (same fuel, every
+    table — balanced or not —, every stack) -/
+theorem resolve_norm_irrelevant_of_stable_run (n : Nat) (s : Toks) (seen : List Toks)
+    (h : stableRun norm n tbl s seen = true) :
+    resolve norm n tbl s seen = resolve id n tbl s seen :=
+  resolve_eq_id_of_stableRun n s seen h
+
+/-- once the run has ended, more fuel inspects the same lookups; less fuel inspects fewer -/
+theorem stableRun_stable {n m : Nat} (hnm : n ≤ m) (s : Toks) (seen : List Toks) :
+    (resolve norm n tbl s seen ≠ .outOfFuel →
+      stableRun norm m tbl s seen = stableRun norm n tbl s seen) ∧
+    (stableRun norm m tbl s seen = true → stableRun norm n tbl s seen = true) :=
+  ⟨stableRun_fuel_mono hnm s seen, stableRun_fuel_anti hnm s seen⟩
+
+/-- hence the hypothesis has a one-run (decidable) form: ONE run that ends and is stable makes the
+    check true for every fuel -/
+theorem stableRun_all_of_ended {n : Nat} {s : Toks} {seen : List Toks}
+    (hn : resolve norm n tbl s seen ≠ .outOfFuel) (h : stableRun norm n tbl s seen = true) :
+    ∀ m, stableRun norm m tbl s seen = true :=
+  stableRun_all_of_run hn h
+
+/-- the static hypothesis of `resolve_terminates_balanced_relex_partial` implies the per-run one,
+    for every fuel, input over the clean alphabet and stack -/
+theorem stableRun_of_clean {d : Delims} (hd : d.LexOK) (hc : ∀ kv ∈ tbl, Over (CleanTok d) kv.2)
+    (n : Nat) (s : Toks) (seen : List Toks) (hs : Over (CleanTok d) s) :
+    stableRun (relex d) n tbl s seen = true :=
+  stableRun_of_over (relex_clean hd) hc n s seen hs
+
+/-- `resolve_terminates_balanced` under the REAL `norm`, per run: balanced table values (NOTHING is
+    asked of their characters, nor of the delimiters), any input, any stack — if re-lexing is stable
+    on every text the run looks up (for every sufficiently large fuel), the run ENDS, and with the
+    result of the `norm = id` model.  `_partial`: without the hypothesis the statement is refuted
+    (`resolve_terminates_balanced_relex_refuted`). -/
+theorem resolve_terminates_balanced_relex_stable_partial (d : Delims) (tbl : Table)
+    (hb : ∀ kv ∈ tbl, Balanced kv.2) (s : Toks) (seen : List Toks)
+    (hst : ∃ n0, ∀ n, n0 ≤ n → stableRun (relex d) n tbl s seen = true) :
+    ∃ n, ∀ m, n ≤ m → resolve (relex d) m tbl s seen ≠ .outOfFuel ∧
+      resolve (relex d) m tbl s seen = resolve id m tbl s seen := by
+  obtain ⟨r, hr, hi⟩ := resolves_balanced_stable hb s seen hst
+  obtain ⟨n₁, h₁⟩ := hr.fuel
+  obtain ⟨n₂, h₂⟩ := hi.fuel
+  exact ⟨max n₁ n₂, fun m hm => by
+    rw [h₁ m (by omega), h₂ m (by omega)]; exact ⟨hr.ne, rfl⟩⟩
+
+/-- the one-run form, for ANY table: if the `norm = id` model ends with fuel `n` and the run under
+    the real `norm` with that fuel is stable, the model under the real `norm` gives that result for
+    every fuel `m ≥ n` -/
+theorem resolve_relex_eq_id_of_stable_run_partial (d : Delims) (tbl : Table) (n : Nat) (s : Toks)
+    (seen : List Toks) (hn : resolve id n tbl s seen ≠ .outOfFuel)
+    (hst : stableRun (relex d) n tbl s seen = true) :
+    ∀ m, n ≤ m → resolve (relex d) m tbl s seen = resolve id n tbl s seen := by
+  intro m hm
+  have e := resolve_eq_id_of_stableRun n s seen hst
+  rw [resolve_fuel_mono (relex d) tbl hm s seen (by rw [e]; exact hn), e]
+
+/-- the old theorem is an instance of the new one -/
+theorem resolve_terminates_balanced_relex_of_stable (d : Delims) (hd : d.LexOK) (tbl : Table)
+    (hb : ∀ kv ∈ tbl, Balanced kv.2) (hc : ∀ kv ∈ tbl, Over (CleanTok d) kv.2)
+    (s : Toks) (hs : Over (CleanTok d) s) (seen : List Toks) :
+    ∃ n, ∀ m, n ≤ m → resolve (relex d) m tbl s seen ≠ .outOfFuel := by
+  obtain ⟨n, hn⟩ := resolve_terminates_balanced_relex_stable_partial d tbl hb s seen
+    ⟨0, fun n _ => stableRun_of_clean tbl hd hc n s seen hs⟩
+  exact ⟨n, fun m hm => (hn m hm).1⟩
+
+/-- the per-run hypothesis is STRICTLY weaker than the static one.  Table o = `$` (one half of the
+    prefix `${` as plain text: not clean), a = `${o}{x}` (balanced); input `${a}`.  The value of `a`
+    resolves to the CHARACTERS `$`,`{`,`x` and a suffix: a glued prefix in the output — which is
+    never looked up.  The looked-up texts are `o` and `a`; the run is stable for every fuel and
+    the model under the real re-lexing ends for every fuel ≥ 3. -/
+theorem nonvacuous_relex_stable :
+    let d : Delims := ⟨['$', '{'], ['}'], [':']⟩
+    let tbl : Table := [([.ch 'o'], [.ch '$']), (tA, [.pre, .ch 'o', .suf, .ch '{', .ch 'x', .suf])]
+    (∀ kv ∈ tbl, Balanced kv.2) ∧ ¬ (∀ kv ∈ tbl, Over (CleanTok d) kv.2) ∧
+    (∀ n, stableRun (relex d) n tbl phA [] = true) ∧
+    (∀ m, 3 ≤ m → resolve (relex d) m tbl phA [] = .ok [.ch '$', .ch '{', .ch 'x', .suf]) ∧
+    relex d [.ch '$', .ch '{', .ch 'x', .suf] = [.pre, .ch 'x', .suf] := by
+  intro d tbl
+  have hst : ∀ n, stableRun (relex d) n tbl phA [] = true :=
+    stableRun_all_of_run (n := 3) (by decide) (by decide)
+  refine ⟨by decide, by decide, hst, fun m hm => ?_, by decide⟩
+  rw [resolve_relex_eq_id_of_stable_run_partial d tbl 3 phA [] (by decide) (hst 3) m hm]
+  decide
+
+/-- the divergent run of `resolve_diverges_relex_counterexample` (D31) is NOT stable: from fuel 7
+    on the check fails (the looked-up text `:${a}}${:${a}w${a}}${:${a}w` re-lexes to other tokens),
+    although the `norm = id` model ends on the same input with fuel 7 -/
+theorem relex_counterexample_not_stable :
+    let d : Delims := ⟨['$', '{'], ['}'], [':']⟩
+    (∀ kv ∈ DivR.tblR, Balanced kv.2) ∧
+    resolve id 7 DivR.tblR (Div.D 0) [] ≠ .outOfFuel ∧
+    ∀ m, 7 ≤ m → stableRun (relex d) m DivR.tblR (Div.D 0) [] = false := by
+  refine ⟨DivR.tblR_balanced, by decide +kernel, fun m hm => ?_⟩
+  cases h : stableRun (relex ⟨['$', '{'], ['}'], [':']⟩) m DivR.tblR (Div.D 0) [] with
+  | false => rfl
+  | true =>
+    have := stableRun_fuel_anti hm _ _ h
+    revert this
+    decide +kernel
+
+/-- stability is sufficient, not necessary: the same table with the glued prefix IN KEY POSITION,
+    input `${${a}}`.  The looked-up text `${x}` (characters) re-lexes to a placeholder: the run is
+    not stable; it ends all the same, here even with the result of the `norm = id` model (the
+    re-lexed text is unknown and has no separator: verbatim). -/
+theorem relex_unstable_but_ends :
+    let d : Delims := ⟨['$', '{'], ['}'], [':']⟩
+    let tbl : Table := [([.ch 'o'], [.ch '$']), (tA, [.pre, .ch 'o', .suf, .ch '{', .ch 'x', .suf])]
+    stableRun (relex d) 4 tbl (Tok.pre :: phA ++ [Tok.suf]) [] = false ∧
+    resolve (relex d) 4 tbl (Tok.pre :: phA ++ [Tok.suf]) [] = .ok (Tok.pre :: phA ++ [Tok.suf]) ∧
+    resolve id 4 tbl (Tok.pre :: phA ++ [Tok.suf]) [] = .ok (Tok.pre :: phA ++ [Tok.suf]) := by
+  decide
+
 /-! ## Non-vacuity and witnesses (norm = id) -/
 
 
@@ -868,7 +1083,13 @@ theorem nonvacuous_evalT_cycle :
     (`resolve_diverges_relex_counterexample`, `resolve_terminates_balanced_relex_refuted`: a value
     that is one half of a delimiter glues with literal text; D29 class at byte level); proved for
     balanced tables and inputs without partial delimiters (`resolve_terminates_balanced_relex_partial`;
-    there the model does not depend on `norm`: `resolve_relex_eq_id_of_clean`).
+    there the model does not depend on `norm`: `resolve_relex_eq_id_of_clean`); WEAKENED to a per-run,
+    decidable hypothesis — re-lexing is stable on every text the run looks up (`stableRun`):
+    `resolve_terminates_balanced_relex_stable_partial` (nothing asked of the characters of the values,
+    of the input or of the delimiters; `stableRun_of_clean`: implied by the static condition;
+    `nonvacuous_relex_stable`: strictly weaker; `relex_counterexample_not_stable`: violated by the D31
+    run; `relex_unstable_but_ends`: sufficient, not necessary; `stableRun_all_of_ended`: one ended
+    stable run decides it; `resolve_norm_irrelevant_of_stable_run`: a stable run is the `id` run).
 
   * resolve_refines_evalT — PROVED on the flat fragment (`resolve_refines_evalT_flat_partial`:
     plain keys, template defaults, template values; `resolve_iff_evalT_flat_partial` gives both
@@ -885,6 +1106,10 @@ theorem nonvacuous_evalT_cycle :
     `resolve_iff_evalT_nested_static_partial`), under the real `norm`
     `resolve_iff_evalT_nested_relex_partial`; `evalT2` is total (`evalT2_total_nested`); the
     unconditional equivalence is refuted (`resolve_iff_evalT_nested_unconditional_refuted`).
+    As ONE EQUATION on the common domain: `resolve_eq_evalT_nested_partial` (from some fuel on, both
+    sides return the same text / circular reference, never `outOfFuel`; no termination hypothesis),
+    `resolve_evalT_nested_same_outcome_partial` (any two fuels at which both have ended),
+    `nonvacuous_resolve_eq_evalT_nested` (`${a${b}}`, `${${k}:d}`, `${${q}:d}`, every fuel ≥ 10).
     The harness compares with an independently written Go recursive-descent reference on the full
     grammar.
 -/
